@@ -2,7 +2,7 @@
 # usage: seed_regress.sh [seed...] ; for every stored seed: apply to /repo, run the quick check of its
 # own property (plus listed cross-properties), record which rules report it, revert.  Writes seeded/REGRESS.tsv
 cd /verif
-declare -A extra=( [C01-2]="C07" [C14-1]="C07" [C08-2]="C06" [C05-1]="C03" [C05-4]="C02" [C01-3]="C03" [C05-6]="C03" [C01-6]="C02" [C15-6]="C07" [C01-5]="C03 C07" [C03-6]="C07" )
+declare -A extra=( [C01-2]="C07" [C14-1]="C07" [C08-2]="C06" [C05-1]="C03" [C05-4]="C02" [C01-3]="C03" [C05-6]="C03" [C01-6]="C02" [C15-6]="C07" [C01-5]="C03 C07" [C03-6]="C07" [C12-5]="C19" [C19-5]="C13" )
 seeds=${@:-$(ls seeded | grep -E '^C[0-9]+-[0-9]+$')}
 out=seeded/REGRESS.tsv; : > $out
 for s in $seeds; do
